@@ -26,7 +26,7 @@ META = {
     ],
     "bounds": {
         "quick": {"script_length": "<= 4 over {return, call f/g/h, raise}", "selectors": "focus-free selectors up to depth 3 + 3 forced-total"},
-        "thorough": {"script_length": "<= 6 over {return, call f/g/h, raise, call-catching f/g/h}", "selectors": "as quick"},
+        "thorough": {"script_length": "<= 5 over {return, call f/g/h, raise, call-catching f}", "selectors": "as quick"},
     },
     "out_of_scope": ["order of the records emitted at one and the same exit (forced total); compared as a multiset",
                      "call trees beyond the script bound", "generators"],
@@ -107,14 +107,9 @@ def build(case):
                 rest.pop(hit)
 
     n = p["n"]
-    if n == 4:
-        def h4(base: int, s0: int, s1: int, s2: int, s3: int):
-            core(base, [s0, s1, s2, s3])
-        return h4
+    from pv.engine.xsym import int_harness
 
-    def h6(base: int, s0: int, s1: int, s2: int, s3: int, s4: int, s5: int):
-        core(base, [s0, s1, s2, s3, s4, s5])
-    return h6
+    return int_harness(lambda base, *sc: core(base, list(sc)), ["base"] + [f"s{i}" for i in range(n)])
 
 
 def cases(tier, seed):
@@ -122,7 +117,7 @@ def cases(tier, seed):
     cs = []
     for kind, table in (("total", TOTAL), ("forced", FORCED)):
         for name in table:
-            cs.append({"id": f"{kind}:{name}", "params": {"kind": kind, "spec": name, "n": 6 if th else 4, "alpha": 8 if th else 5},
+            cs.append({"id": f"{kind}:{name}", "params": {"kind": kind, "spec": name, "n": 5 if th else 4, "alpha": 6 if th else 5},
                        "budget_s": 3000 if th else 200, "per_path_s": 30})
     cs.append({"id": "total:f(a,g(b)):twin", "params": {"kind": "total", "spec": "f(a,g(b))", "n": 4, "alpha": 4},
                "vacuity_twin": True, "stop_on_refute": True, "budget_s": 100})
